@@ -343,6 +343,19 @@ def rule_e(res: Results, idx: Index) -> None:
         else:
             why = f"`{src(d.value, 60)}` is not a difference"
     res.add("R-C06e", "OK" if ok else "VIOLATION", f"{rel}:{(subs[0].stmt.lineno if subs else bind_fn.node.lineno)}", key, "trip_count = upper - lower" if ok else f"the number of iterations bound on the primitive is wrong: {why}", bind_fn.qualname)
+    # (1b) the bounds are truncated with int(…) only after non-integer bounds were rejected (JAX raises TypeError for fori_loop(0, 2.5, …);
+    #      int(2.5) would silently export two iterations)
+    key = f"{rel}::{bind_fn.qualname}::bounds-integer-check"
+    truncs = [c for c in walk_no_nested(bind_fn.node) if isinstance(c, ast.Call) and (call_name(c) or "") == "int" and c.args and names_in(c.args[0]) & {"upper", "lower"}]
+    if truncs:
+        first = min(truncs, key=lambda c: c.lineno)
+        rejecting = [i for i in walk_no_nested(bind_fn.node) if isinstance(i, ast.If) and i.lineno < first.lineno and any(isinstance(x, ast.Raise) for b in i.body for x in ast.walk(b))
+                     and {"lower", "upper"} <= (du.closure(names_in(i.test)) | names_in(i.test))
+                     and any(tok in " ".join([src(i.test, 200)] + [src(d.value, 200) for nm in names_in(i.test) for d in du.defs.get(nm, []) if d.value is not None]) for tok in ("kind", "integer", "issubdtype"))]
+        if rejecting:
+            res.ok("R-C06e", f"{rel}:{rejecting[0].lineno}", key, f"non-integer bounds are rejected (`{src(rejecting[0].test, 60)}`) before `{src(first, 40)}`", bind_fn.qualname)
+        else:
+            res.violation("R-C06e", f"{rel}:{first.lineno}", key, f"`{src(first, 50)}` truncates a bound without an integer-kind check before it: lax.fori_loop(0, 2.5, …) is a TypeError in JAX and is exported with two iterations", bind_fn.qualname)
     # (2) bind(..., trip_count=trip_count, lower=<lower>)
     binds = [c for c in walk_no_nested(bind_fn.node) if isinstance(c, ast.Call) and isinstance(c.func, ast.Attribute) and c.func.attr == "bind"]
     key = f"{rel}::{bind_fn.qualname}::bind-lower"
